@@ -24,7 +24,9 @@ from vmon import canon, gen
 from vmon.res import exc_name
 
 ID_NAMES = ["c0", "c1", "c2", "c3", "c4", "k", "x", "y"]
-ODD_NAMES = ["a b", "1x", "items", "count", "sort", "nrow", "keys", "update", "values"]
+ODD_NAMES = ["a b", "1x", "items", "count", "sort", "nrow", "keys", "update", "values",
+             # names of class-level attributes (not methods) of the frame class, and the empty name
+             "COLUMN_PLACEHOLDER", "ATTRIBUTES", "ncol", "columns", ""]
 
 class Monitors:
 
@@ -385,8 +387,11 @@ class Program:
                 kind = rng.choice([k for k in self.kinds if k != "obj"])
                 name = rng.choice(names + ["c9", "z"]) if names else "z"
                 v = gen.np_column(kind, gen.gen_values(rng, kind, 1, "none"))[0]
-                form = rng.choice(["scalar", "len1-list", "len1-vector"])
+                form = rng.choice(["scalar", "len1-list", "len1-vector", "zero-dim-array"])
                 vv = v if form == "scalar" else ([v] if form == "len1-list" else di.Vector(gen.np_column(kind, [gen.gen_values(rng, kind, 1, "none")[0]])))
+                if form == "zero-dim-array":
+                    vv = np.asarray(v)        # a zero-dimensional array: a scalar in array clothing (broadcast like one, or rejected -- never stored as it is)
+                    if vv.ndim != 0: vv = v
                 if form == "len1-vector":
                     v = np.asarray(vv)[0]
                 def call():
